@@ -69,6 +69,20 @@ fn gen(rng: &mut Rng, tier: Tier) -> Vec<Case> {
         }
     }
     for len in 0..=12u64 { push("boundary", Rec::new("chrM", u64::MAX - len, u64::MAX), 1 + len / 2); push("boundary", Rec::new("chrM", u64::MAX - len, u64::MAX), u64::MAX); }
+    // LONG records (above 2^24, 2^32, 2^53 bases, up to the whole coordinate range) in a few to a few thousand pieces, the bin
+    // size a quotient of the length or next to one: arithmetic that is exact only below some magnitude (f32 / f64 / u32)
+    let nl = match tier { Tier::Quick => 150, Tier::Thorough => 3000 };
+    for _ in 0..nl {
+        let e = *rng.pick(&[24u32, 31, 32, 52, 53, 54, 60, 63]);
+        let len = match rng.below(4) { 0 => (1u64 << e) + rng.below(3), 1 => (1u64 << e) - 1 - rng.below(2), 2 => ((1u64 << e) + 1).saturating_mul(rng.range(1, 7)), _ => (1u64 << e) + rng.below(1 << (e - 1)) };
+        let start = match rng.below(3) { 0 => 0, 1 => rng.below(1000), _ => (u64::MAX - len).min(rng.below(1 << 62)) };
+        let Some(end) = start.checked_add(len) else { continue };
+        let kmax = if rng.chance(1, 4) { 4000 } else { 9 };
+        let k = rng.range(1, kmax);
+        let bin = match rng.below(6) { 0 => len / k, 1 => len / k + 1, 2 => (len / k).saturating_sub(1), 3 => 1u64 << (e - 1), 4 => (1u64 << e) + 1, _ => len.div_ceil(k) };
+        if bin == 0 { continue; }
+        push("long", Rec::new(*rng.pick(CHROMS), start, end), bin);
+    }
     let nr = match tier { Tier::Quick => 400, Tier::Thorough => 8000 };
     for _ in 0..nr {
         let start = match rng.below(4) { 0 => 0, 1 => rng.below(1000), 2 => rng.below(1 << 60), _ => u64::MAX - rng.below(100_000) };
